@@ -23,6 +23,7 @@ try:
         verdict = "patch-does-not-apply"
     else:
         run("git reset -q", wt)
+        run("git add -N .", wt)  # so that files the refactoring adds are part of the stored patch
         patch = run("git diff", wt)[1]
         rc, out = run("go build ./...", wt)
         if rc != 0:
